@@ -88,7 +88,7 @@ func runC11(p *Program, r *Result) {
 				n++
 				atoms := tb.pathAtoms(pa)
 				_, first := findFact(atoms, func(a Atom) bool {
-					return a.Kind == "cmp" && a.Op == "==" && a.Y.S == "0" && short(a.X.String()) == "(RangeIdx() + 1)"
+					return a.Kind == "cmp" && a.Op == "==" && a.Y.S == "0" && short(a.X.String()) == "(RangeIdx#1 + 1)"
 				})
 				_, equal := findFact(atoms, func(a Atom) bool {
 					if a.Kind != "call" || !a.Pol || len(a.Call.Args) != 2 {
@@ -264,7 +264,7 @@ func runC11(p *Program, r *Result) {
 					continue
 				}
 				facts := stb.FactsAt(ret.Block())
-				if _, f := hasFactShort(facts, "Elem(P1, (RangeIdx() + 1)) != Elem(P2, (RangeIdx() + 1))"); f {
+				if _, f := hasFactShort(facts, "Elem(P1, (RangeIdx#1 + 1)) != Elem(P2, (RangeIdx#1 + 1))"); f {
 					if k, isC := ret.Results[0].(*ssa.Const); isC && k.Value.ExactString() == "false" {
 						found = true
 					}
